@@ -605,6 +605,18 @@ fn tick_main(env: &mut Env<VS>, args: Vec<Field>) -> BuiltinFuture<'_> {
     })
 }
 
+/// `tock VAR N`: increments $VAR; fails while the new value is <= N.
+fn tock_main(env: &mut Env<VS>, args: Vec<Field>) -> BuiltinFuture<'_> {
+    Box::pin(async move {
+        let r = tick_main(env, args).await;
+        if r.exit_status() == ExitStatus::SUCCESS {
+            ExitStatus::FAILURE.into()
+        } else {
+            ExitStatus::SUCCESS.into()
+        }
+    })
+}
+
 /// `pos [fd]`: traces the current offset of fd (default 0).
 fn pos_main(env: &mut Env<VS>, args: Vec<Field>) -> BuiltinFuture<'_> {
     use yash_env::system::Seek;
@@ -627,6 +639,7 @@ pub fn register_probes(env: &mut Env<VS>) {
     env.builtins.insert("sink", bi(sink_main));
     env.builtins.insert("cat", bi(cat_main));
     env.builtins.insert("tick", bi(tick_main));
+    env.builtins.insert("tock", bi(tock_main));
     env.builtins.insert("pos", bi(pos_main));
 }
 
@@ -1037,8 +1050,10 @@ impl Run {
         let mut names: HashMap<i32, String> = HashMap::new();
         let mut counts: HashMap<i32, usize> = HashMap::new();
         names.insert(2, "M".into());
-        names.insert(3, "F".into());
         for (pid, p) in st.processes.iter() {
+            if pid.0 == 3 && p.ppid().0 == 1 {
+                names.insert(3, "F".into());
+            }
             if names.contains_key(&pid.0) {
                 continue;
             }
